@@ -240,6 +240,21 @@ class IPrefix:
 # Prococol
 
 
+def flow_family_error(afi: AFI, rules: dict[int, list[Any]]) -> str:
+    """'' when every component may appear in a flow of this AFI, what is wrong otherwise.
+
+    The parsers check a component against the family known WHEN IT IS READ: `flow-label 5; destination 10.0.0.0/8`
+    was accepted (and sent as an IPv4 flow with an IPv6-only component) while the same words in the other order were
+    refused, and the `announce <afi> flow` form never compared the prefixes with its AFI.
+    """
+    marker = FlowIPv6 if afi == AFI.ipv6 else FlowIPv4
+    for components in rules.values():
+        for component in components:
+            if not isinstance(component, marker):
+                return f'{component.NAME} {component} can not be part of an {afi} flow'
+    return ''
+
+
 class IPrefix4(IPrefix, IComponent, FlowIPv4):
     """IPv4 FlowSpec prefix using packed-bytes-first pattern.
 
